@@ -24,4 +24,14 @@ def generate(L):
         raise L.GenError("get_checkpoint_entry_for_file: early returns are no longer in the modelled order")
     if "WorkingLogEntry::new(file_path, file_content_hash, Vec::new(), Vec::new())" not in fn:
         raise L.GenError("human fast path no longer writes an attribution-empty entry")
-    return "Definition checkpoint_early_returns_ok : bool := true."
+    # how carried-over (INITIAL) claims are anchored at the first checkpoint of a file: against the CURRENT content
+    # (positional claims, the tracker is handed current content as the previous one) or against something else
+    n = re.sub(r"\s+", " ", L.strip_comments(fn))
+    a = re.search(r"let content_for_line_conversion = if !initial_attrs_for_file\.is_empty\(\) \{ &current_content \} else \{ &previous_content \};", n)
+    b = re.search(r"let adjusted_previous = if !initial_attrs_for_file\.is_empty\(\) \{ current_content\.clone\(\) \} else \{ previous_content \};", n)
+    if bool(a) != bool(b):
+        raise L.GenError("get_checkpoint_entry_for_file: INITIAL anchoring changed in one of its two places only")
+    if not a and "initial_attrs_for_file" in n and "content_for_line_conversion" in n:
+        raise L.GenError("get_checkpoint_entry_for_file: INITIAL anchoring has an unknown shape")
+    return "\n".join(["Definition checkpoint_early_returns_ok : bool := true.",
+                      "Definition initial_anchored_to_current : bool := " + L.coq_bool(bool(a)) + "."])
